@@ -317,6 +317,29 @@ class Item:
         p = self.toks[j].start
         self.add(p, p, "\n" + text, "R6 spec")
 
+    def op_loop_pre(self, sub, n, text):
+        k, j = self.nth_loop(sub, n)
+        p = self.toks[k].start
+        self.add(p, p, text + "\n", "R6 spec")
+
+    def op_loop_body_prefix(self, sub, n, text):
+        k, j = self.nth_loop(sub, n)
+        p = self.toks[j].end
+        self.add(p, p, "\n" + text, "R6 spec")
+
+    def op_loop_body_suffix(self, sub, n, text):
+        k, j = self.nth_loop(sub, n)
+        c = rslex.match_close(self.toks, j)
+        p = self.toks[c].start
+        self.add(p, p, text + "\n", "R6 spec")
+
+    def op_body_suffix_before(self, sub, anchor, text):
+        """insert ghost text before the statement starting at `anchor`"""
+        a, b, body = self.sub_range(sub)
+        seg = self.src[self.toks[body].start:self.toks[b].end]
+        off = find_unique(seg, anchor, self.what) + self.toks[body].start
+        self.add(off, off, text + "\n", "R6 spec")
+
     def op_loop_iter(self, sub, n, name):
         k, j = self.nth_loop(sub, n)
         ink = next(x for x in range(k, j) if self.toks[x].kind == "ident" and self.toks[x].text == "in")
@@ -423,6 +446,14 @@ def build_unit(template_path, repo, out_path):
                 item.op_body_prefix(sub, text)
             elif o == "loop":
                 item.op_loop(sub, int(arg), text)
+            elif o == "loop_pre":
+                item.op_loop_pre(sub, int(arg), text)
+            elif o == "loop_body_prefix":
+                item.op_loop_body_prefix(sub, int(arg), text)
+            elif o == "loop_body_suffix":
+                item.op_loop_body_suffix(sub, int(arg), text)
+            elif o == "before":
+                item.op_body_suffix_before(sub, ANCH.search(arg).group(1), text)
             elif o == "loop_iter":
                 n, name = arg.split()
                 item.op_loop_iter(sub, int(n), name)
